@@ -1061,7 +1061,18 @@ func (x *Unit) calleeResultType(e ast.Expr, idx int, c *specCtx) types.Type {
 		}
 	case *ast.SelectorExpr:
 		if id, ok := f.X.(*ast.Ident); ok {
-			if p := findImport(c.pkg, id.Name); p != nil {
+			if v, isName := c.names[id.Name]; isName && v.Typ != nil {
+				// a method (or func-typed field) of a named value of the contract: recv.M
+				obj, _, _ := types.LookupFieldOrMethod(v.Typ, true, c.pkgOf(v.Typ), f.Sel.Name)
+				switch o := obj.(type) {
+				case *types.Func:
+					fn = o
+				case *types.Var:
+					if sig, ok := under(o.Type()).(*types.Signature); ok && idx < sig.Results().Len() {
+						return sig.Results().At(idx).Type()
+					}
+				}
+			} else if p := findImport(c.pkg, id.Name); p != nil {
 				fn, _ = p.Scope().Lookup(f.Sel.Name).(*types.Func)
 			}
 		}
